@@ -2,7 +2,7 @@
 from __future__ import annotations
 import ast
 from ..api import A, spec
-from ..terms import Evaluator, Poly, Rec, Cond, Opq, Comp, Closure, tkey, term_equal, has_opaque, compare_terms
+from ..terms import _is_callable_term, Evaluator, Poly, Rec, Cond, Opq, Comp, Closure, tkey, term_equal, has_opaque, compare_terms
 from .solutions import class_of, new_ev, init_self, method_term, OPAQUE_CIRCUIT, CS
 
 
@@ -42,7 +42,7 @@ def run(rep, prog, tier):
     m, cls = class_of(prog, CS, 'TimeDomainSolution')
     ev = new_ev(prog, real_atoms={'t'})
     t, site = method_term(prog, ev, m, cls, 'get_power', [A('id')])
-    if isinstance(t, Closure):
+    if _is_callable_term(t):
         val = ev.apply(t, [A('t')], {}, m, 1)
         sp = spec(ev, "self.get_voltage(id)(t)*self.get_current(id)(t)", dict(envs, t=A('t')), m)
         rep.ob('R05.formula', 'time-domain', compare_terms(val, sp), f'p(t) = {val!r:.200}', site, lhs=val, rhs=sp)
